@@ -191,7 +191,15 @@ impl Manager {
             );
         }
     }
-    /// Retrieves the number of current connections.
+    /// Adds to the count of connections, like [`Manager::add_connection`].
+    /// The count is decreased again when the returned guard is dropped,
+    /// also if the task holding it panics.
+    pub fn connection_guard(self: &Arc<Self>) -> ConnectionGuard {
+        self.add_connection();
+        ConnectionGuard(Arc::clone(self))
+    }
+    /// Retrieves the number of current connections
+    /// (a listener which hasn't stopped accepting also counts as one).
     /// Returns `0` if the feature `graceful-shutdown is disabled`.
     #[must_use]
     pub fn get_connecions(&self) -> isize {
@@ -378,6 +386,17 @@ impl Manager {
     }
 }
 
+/// Calls [`Manager::remove_connection`] when dropped.
+/// Created by [`Manager::connection_guard`].
+#[derive(Debug)]
+#[must_use = "the connection is removed when this is dropped"]
+pub struct ConnectionGuard(Arc<Manager>);
+impl Drop for ConnectionGuard {
+    fn drop(&mut self) {
+        self.0.remove_connection();
+    }
+}
+
 /// The result of [`AcceptManager::accept`].
 /// Can either be a new connection or a shutdown signal.
 /// The listener should be dropped right after the shutdown signal is received.
@@ -530,6 +549,11 @@ impl AcceptFuture<'_> {
                     return Poll::Ready(());
                 }
                 self.manager.set_waker(self.index, Waker::clone(cx.waker()));
+                // the shutdown (and its notification of the wakers) can have happened between
+                // the check above and the registration of our waker
+                if self.manager.shutdown.load(Ordering::Acquire) {
+                    return Poll::Ready(());
+                }
                 Poll::Pending
             });
             match self.listener {
